@@ -174,7 +174,8 @@ UnitTiming(c) ==
      \cup IF ~Ok(c) \/ lip THEN {}
         ELSE F("flat", ~FlatBody(o))
              \cup F("schedule", Schedule(EraseSubProg(o)) # Schedule(EraseSubProg(i)))
-             \cup F("sub_annotations", HasSubInBody(i) /\ ~HasSubInBody(o))
+             \* every subcircuit block survives with its count and the (relative) schedule of its own body
+             \cup F("sub_annotations", SubShapeSeq(o.body) # SubShapeSeq(i.body))
              \cup F("header_carried", LetsOf(o) # LetsOf(i) \/ RegsOf(o) # RegsOf(i) \/ NativeSet(o) # NativeSet(i) \/ MacroSet(o) # MacroSet(i))
              \cup F("imports_carried", SeqToSet(o.imports) # SeqToSet(i.imports))
 
